@@ -66,4 +66,9 @@ TEXT = {
   "note": "Metamorphic oracle: the value of e is taken from ordinary evaluation of the same expression in a scratch interpreter (trusts that ordinary evaluation of arithmetic/stack/collection words is right - C01/C09/C12 check that).",
   "technique": "metamorphic twin-execution monitor (block vs inlined literal) + sealing probes + invariants at the dump hook",
  },
+ "C16": {
+  "level": "Exploration: hostile texts are tokenised with Lex::next under a call budget; token texts must tile the input, and kind, extent and value of every token are compared with an independent implementation of the documented literal grammar (reals against Python's float() on per-run reference vectors); printed integers, bit-strings and collections are read back and must be equal.",
+  "note": "Trusts the harness's reading of the grammar (written from README/tests, adjusted only where the suite pins a quirk) and Python's correctly rounded float().",
+  "technique": "differential monitor against an independent lexical specification + tiling/progress invariants + print/read round trip",
+ },
 }
